@@ -265,11 +265,97 @@ class Fn:
             parts = [self.expr(x, env) for x in node.elts]
             return ("(" + ", ".join(p[0] for p in parts) + ")", "Tuple:" + ",".join(p[1] for p in parts))
         if isinstance(node, ast.List):
+            if any(isinstance(x, ast.Starred) for x in node.elts):
+                want = self.t.get("list_elem_hint")
+                pieces, et = [], None
+                for x in node.elts:
+                    if isinstance(x, ast.Starred):
+                        e, t = self.expr_list_hint(x.value, env, want)
+                        if not t.startswith("List:"):
+                            raise NotTranslatable("starred non-list")
+                        if t != "List:_":
+                            et = et or t[5:]
+                        pieces.append(e)
+                    else:
+                        if want:
+                            pieces.append("[" + self.coerce(x, env, want) + "]")
+                            et = want
+                        else:
+                            e, t = self.expr(x, env)
+                            et = et or t
+                            pieces.append(f"[{e}]")
+                return ("(" + " ++ ".join(pieces) + ")", "List:" + (et or "_"))
             parts = [self.expr(x, env) for x in node.elts]
+            want = self.t.get("list_elem_hint")
+            if want and parts:
+                try:
+                    return ("[" + ", ".join(self.coerce(x, env, want) for x in node.elts) + "]", "List:" + want)
+                except NotTranslatable:
+                    pass
             return ("[" + ", ".join(p[0] for p in parts) + "]", "List:" + (parts[0][1] if parts else "_"))
         if isinstance(node, ast.Call):
             return self.call(node, env)
         raise NotTranslatable(f"expression {type(node).__name__}")
+
+    def expr_list_hint(self, node, env, want):
+        """a list-valued expression whose literal pieces are converted to the hinted element type"""
+        if isinstance(node, ast.IfExp):
+            a, ta = self.expr_list_hint(node.body, env, want)
+            b, tb = self.expr_list_hint(node.orelse, env, want)
+            t = ta if ta != "List:_" else tb
+            ann = f" : {self.lean_ty(t)}" if t != "List:_" else ""
+            return (f"((if {self.cond(node.test, env)} then {a} else {b}){ann})", t)
+        return self.expr(node, env)
+
+    def literal_items(self, node, env):
+        """the element expressions of an iterable that is known statically: a tuple / list display, or a module constant
+        that is a tuple / list of constants.  Each item is ("node", ast) or ("const", python value)."""
+        if isinstance(node, (ast.Tuple, ast.List)) and not any(isinstance(x, ast.Starred) for x in node.elts):
+            return [("node", x) for x in node.elts]
+        d = dotted(node)
+        if d is not None and ("%lit%" + d) in env:
+            return [("vals", v) for v in env["%lit%" + d]]
+        if d is not None and d.split(".")[0] not in env and not any(k == d or k.startswith(d + ".") for k in env):
+            try:
+                val = eval(d, self.glob)  # noqa: S307
+            except Exception:
+                return None
+            if isinstance(val, (tuple, list)) and len(val) <= 64:
+                return [("const", v) for v in val]
+        return None
+
+    def bind_target(self, target, item, env):
+        """environment with a loop / comprehension target bound to one statically known item"""
+        env2 = dict(env)
+        kind, v = item
+        if kind == "vals":
+            if isinstance(target, ast.Name):
+                if isinstance(v, list):
+                    env2[target.id] = ("(" + ", ".join(x[0] for x in v) + ")", "Tuple:" + ",".join(x[1] for x in v))
+                else:
+                    env2[target.id] = v
+                return env2
+            if isinstance(target, ast.Tuple) and isinstance(v, list) and len(v) == len(target.elts):
+                for n, val in zip(target.elts, v):
+                    env2[n.id] = val
+                return env2
+            raise NotTranslatable("loop target against a recorded display")
+        if isinstance(target, ast.Name):
+            env2[target.id] = self.expr(v, env) if kind == "node" else const_to_lean(v)
+            return env2
+        if isinstance(target, ast.Tuple) and all(isinstance(x, ast.Name) for x in target.elts):
+            if kind == "node":
+                if not isinstance(v, ast.Tuple) or len(v.elts) != len(target.elts):
+                    raise NotTranslatable("tuple target against a non-tuple item")
+                vals = [self.expr(x, env) for x in v.elts]
+            else:
+                if not isinstance(v, tuple) or len(v) != len(target.elts):
+                    raise NotTranslatable("tuple target against a non-tuple constant")
+                vals = [const_to_lean(x) for x in v]
+            for n, val in zip(target.elts, vals):
+                env2[n.id] = val
+            return env2
+        raise NotTranslatable("loop target")
 
     def unify(self, a, ta, b, tb):
         if ta == tb:
@@ -404,8 +490,32 @@ class Fn:
             e, t = self.expr(args[0], env)
             if t == "Q":
                 return (f"(Q.trunc {par(e)})", "Int")
+            if is_nat_ty(t):
+                return (e, t)
             if is_int_ty(t):
                 return (as_int(e, t), "Int")
+        if fname in ("any", "all") and len(args) == 1 and isinstance(args[0], ast.GeneratorExp) and not kw:
+            g = args[0]
+            if len(g.generators) == 1 and not g.generators[0].is_async:
+                gen = g.generators[0]
+                items = self.literal_items(gen.iter, env)
+                if items is not None:
+                    parts = []
+                    for item in items:
+                        env2 = self.bind_target(gen.target, item, env)
+                        c = self.cond(g.elt, env2)
+                        for cnd in gen.ifs:
+                            gc = self.cond(cnd, env2)
+                            c = f"({gc} && {c})" if fname == "any" else f"((!{gc}) || {c})"
+                        parts.append(c)
+                    if not parts:
+                        return ("false" if fname == "any" else "true", "Bool")
+                    return ("(" + (" || " if fname == "any" else " && ").join(parts) + ")", "Bool")
+        if fname == "divmod" and len(args) == 2 and not kw:
+            l, r = self.expr(args[0], env), self.expr(args[1], env)
+            self.div_sites.append(ast.unparse(node))
+            ai, bi = as_int(*l), as_int(*r)
+            return (f"((Int.fdiv {par(ai)} {par(bi)}), (Int.fmod {par(ai)} {par(bi)}))", "Tuple:Int,Int")
         if fname == "bool" and len(args) == 1:
             return (self.cond(args[0], env), "Bool")
         if fname == "len" and len(args) == 1:
@@ -435,11 +545,136 @@ class Fn:
                 return (f"(firstHit {it} (fun {v} => {c}) (fun {v} => {body}) {par(dflt)})", t)
         if fname in self.t.get("calls", {}):
             return self.t["calls"][fname](self, args, kw, env)
+        inl = self.resolve_callee(fname)
+        if inl is not None:
+            return self.inline_call(fname, inl, args, kw, env)
         raise NotTranslatable(f"call of {fname}")
+
+    # ---------------------------------------------------------------- inlining of helper functions / methods
+    def resolve_callee(self, fname):
+        """(function object, receiver prefix or None) for a call that can be inlined: a plain function of a pyp0f module,
+        a method of the class being translated (`self.m`), or a method of a declared receiver (`signature.m`)"""
+        import types
+        parts = fname.split(".")
+        if len(parts) == 1:
+            f = self.glob.get(fname)
+            if isinstance(f, types.FunctionType) and (f.__module__ or "").startswith("pyp0f"):
+                return (f, None)
+            return None
+        recv, meth = ".".join(parts[:-1]), parts[-1]
+        cls = None
+        if recv == "self" and "." in self.t["func"] and not getattr(self, "inlined", False):
+            cls = self.glob.get(self.t["func"].split(".")[0])
+        elif recv in self.t.get("receivers", {}):
+            mod, _, cname = self.t["receivers"][recv].partition(":")
+            cls = getattr(importlib.import_module(mod), cname, None)
+        elif getattr(self, "inlined", False) and recv == "self" and self.t.get("self_class") is not None:
+            cls = self.t["self_class"]
+        if cls is None:
+            return None
+        raw = inspect.getattr_static(cls, meth, None)
+        if isinstance(raw, (staticmethod, classmethod)):
+            raw = raw.__func__
+        if isinstance(raw, types.FunctionType):
+            return (raw, recv, cls)
+        return None
+
+    def inline_call(self, fname, inl, args, kw, env):
+        depth = getattr(self, "depth", 0)
+        if depth >= 3:
+            raise NotTranslatable(f"inlining of {fname} nested too deep")
+        func = inl[0]
+        recv = inl[1] if len(inl) > 1 else None
+        try:
+            src = textwrap.dedent(inspect.getsource(func))
+            fdef = ast.parse(src).body[0]
+        except (OSError, TypeError, SyntaxError, IndexError):
+            raise NotTranslatable(f"source of {fname} not available")
+        if not isinstance(fdef, ast.FunctionDef):
+            raise NotTranslatable(f"{fname} is not a plain function")
+        for d in fdef.decorator_list:
+            if dotted(d) not in ("staticmethod", "classmethod"):
+                raise NotTranslatable(f"{fname} is decorated ({ast.unparse(d)})")
+        a = fdef.args
+        if a.vararg or a.kwarg or a.posonlyargs:
+            raise NotTranslatable(f"signature of {fname}")
+        params = [x.arg for x in a.args]
+        env2 = {}
+        if recv is not None and params and params[0] in ("self", "cls"):
+            me = params.pop(0)
+            for k, v in env.items():
+                if k == recv or k.startswith(recv + "."):
+                    env2[me + k[len(recv):]] = v
+        defaults = dict(zip(params[len(params) - len(a.defaults):], a.defaults))
+        kwonly = {x.arg: d for x, d in zip(a.kwonlyargs, a.kw_defaults)}
+        actual = {}
+        for pname, node in zip(params, args):
+            actual[pname] = ("arg", node)
+        if len(args) > len(params):
+            raise NotTranslatable(f"too many arguments for {fname}")
+        for k, node in kw.items():
+            if k not in params and k not in kwonly:
+                raise NotTranslatable(f"unknown keyword {k} for {fname}")
+            actual[k] = ("arg", node)
+        mod = importlib.import_module(func.__module__)
+        sub_t = dict(self.t)
+        sub_t["ret"] = "Any"
+        sub_t["self_class"] = inl[2] if len(inl) > 2 else None
+        sub = Fn(sub_t, fdef, vars(mod))
+        sub.depth = depth + 1
+        sub.inlined = True
+        sub.div_sites = self.div_sites
+        sub.aux = self.aux
+        for pname in params + list(kwonly):
+            if pname in actual:
+                env2[pname] = self.expr(actual[pname][1], env)
+            else:
+                dflt = defaults.get(pname, kwonly.get(pname))
+                if dflt is None:
+                    raise NotTranslatable(f"missing argument {pname} for {fname}")
+                env2[pname] = sub.expr(dflt, {})
+        lets = ""
+        for pname in params + list(kwonly):
+            e, t = env2[pname]
+            if not (e.replace("_", "").replace(".", "").isalnum()):
+                lets += f"let {sub.lean_name(pname)}_arg := {e}\n"
+                env2[pname] = (f"{sub.lean_name(pname)}_arg", t)
+
+        def end(e3, ind3):
+            sub.ret_types.append("Opt:_")
+            return "  " * ind3 + "none"
+        end.cheap = True
+        sub.ret_types = []
+        sub.block(list(fdef.body), dict(env2), end, 1)                      # first pass: the types of the returns
+        rts = [t for t in sub.ret_types]
+        conc = [t for t in rts if t != "Opt:_"]
+        if not conc:
+            raise NotTranslatable(f"{fname} returns nothing")
+        rt = conc[0]
+        for t in conc[1:]:
+            if t != rt:
+                if is_int_ty(t) and is_int_ty(rt):
+                    rt = "Int"
+                elif t.startswith("Opt:") and t[4:] == rt:
+                    rt = t
+                elif rt.startswith("Opt:") and rt[4:] == t:
+                    pass
+                else:
+                    raise NotTranslatable(f"{fname} returns both {rt} and {t}")
+        if "Opt:_" in rts and not rt.startswith("Opt:"):
+            rt = "Opt:" + rt
+        sub.t["ret"] = rt
+        sub.ret_types = []
+        body = sub.block(list(fdef.body), dict(env2), end, 1)
+        return ("(" + lets + body.strip() + ")", rt)
 
     # ---------------------------------------------------------------- statements
     def ret(self, e, t):
         want = self.t["ret"]
+        if hasattr(self, "ret_types"):
+            self.ret_types.append(t)
+        if want == "Any":
+            return e
         if want.startswith("Opt:"):
             if t.startswith("Opt:"):
                 return e
@@ -481,6 +716,19 @@ class Fn:
                 if len(s.targets) != 1:
                     raise NotTranslatable("multiple assignment")
                 tgt, val = s.targets[0], s.value
+                if isinstance(tgt, ast.Tuple) and all(isinstance(x, ast.Name) for x in tgt.elts):
+                    e, t = self.expr(val, env)
+                    if not t.startswith("Tuple:") or len(split_top(t[6:])) != len(tgt.elts):
+                        raise NotTranslatable("unpacking a non-tuple")
+                    tv = f"u{ind}_{len(rest)}"
+                    env2 = dict(env)
+                    out = f"{pad}let {tv} := {e}\n"
+                    n = len(tgt.elts)
+                    for i, (x, ty) in enumerate(zip(tgt.elts, split_top(t[6:]))):
+                        proj = tv + ".2" * i + (".1" if i < n - 1 else "")
+                        out += f"{pad}let {self.lean_name(x.id)} := {proj}\n"
+                        env2[x.id] = (self.lean_name(x.id), ty)
+                    return out + nxt(env2, ind)
             else:
                 tgt, val = s.target, s.value
             name = dotted(tgt)
@@ -490,6 +738,23 @@ class Fn:
                 raise NotTranslatable(f"assignment to attribute {name}")
             if val is None:
                 return nxt(env, ind)
+            # a local name for an object the binding table only knows through its attributes (`window = signature.window`)
+            vd = dotted(val) if isinstance(val, (ast.Name, ast.Attribute)) else None
+            if (isinstance(s, (ast.Assign, ast.AnnAssign)) and isinstance(tgt, ast.Name) and vd is not None and vd not in env
+                    and any(k.startswith(vd + ".") for k in env)):
+                env2 = {k: v for k, v in env.items() if not (k == name or k.startswith(name + "."))}
+                for k, v in env.items():
+                    if k.startswith(vd + "."):
+                        env2[name + k[len(vd):]] = v
+                return nxt(env2, ind)
+            if (isinstance(s, (ast.Assign, ast.AnnAssign)) and isinstance(tgt, ast.Name) and isinstance(val, (ast.Tuple, ast.List))
+                    and val.elts and all(isinstance(x, ast.Tuple) for x in val.elts)):
+                # a local table of tuples (`checks = ((cond, quirk), ...)`): its items are recorded, evaluated here, for a later loop
+                recorded = [[self.expr(y, env) for y in x.elts] for x in val.elts]
+                env2 = dict(env)
+                env2["%lit%" + name] = recorded
+                env2[name] = None
+                return nxt(env2, ind)
             e, t = self.expr(val, env)
             if isinstance(s, ast.AugAssign):
                 if name not in env:
@@ -568,7 +833,7 @@ class Fn:
     def falls(stmts):
         """can control fall off the end of this statement list?"""
         for st in stmts:
-            if isinstance(st, (ast.Return, ast.Raise, ast.Continue)):
+            if isinstance(st, (ast.Return, ast.Raise, ast.Continue, ast.Break)):
                 return False
             if isinstance(st, ast.If) and not (Fn.falls(st.body) or Fn.falls(st.orelse)):
                 return False
@@ -579,7 +844,7 @@ class Fn:
         """number of distinct fall-through paths (what inlining the continuation would duplicate)"""
         n = 1
         for st in stmts:
-            if isinstance(st, (ast.Return, ast.Raise, ast.Continue)):
+            if isinstance(st, (ast.Return, ast.Raise, ast.Continue, ast.Break)):
                 return 0
             if isinstance(st, ast.If):
                 n = n * (Fn.fall_leaves(st.body) + Fn.fall_leaves(st.orelse))
@@ -591,7 +856,7 @@ class Fn:
     def has_exit(stmts):
         for st in stmts:
             for n in ast.walk(st):
-                if isinstance(n, (ast.Return, ast.Raise, ast.Continue)):
+                if isinstance(n, (ast.Return, ast.Raise, ast.Continue, ast.Break)):
                     return True
         return False
 
@@ -767,6 +1032,38 @@ class Fn:
         nxt = lambda env2, ind2: self.block(rest, env2, cont, ind2)  # noqa: E731
         if s.orelse:
             raise NotTranslatable("for-else")
+        items = self.literal_items(s.iter, env)
+        if items is not None:
+            # a loop over a statically known sequence: unrolled (the loop variable is bound to each item in turn)
+            for n in ast.walk(ast.Module(body=s.body, type_ignores=[])):
+                if isinstance(n, (ast.Continue, ast.For, ast.While)):
+                    raise NotTranslatable("continue / nested loop in an unrolled loop")
+            tnames = [s.target.id] if isinstance(s.target, ast.Name) else [x.id for x in getattr(s.target, "elts", []) if isinstance(x, ast.Name)]
+
+            def after(env_k, ind_k):
+                env_out = {kk: vv for kk, vv in env_k.items() if kk not in tnames or kk in env}
+                for tn in tnames:
+                    if tn in env:
+                        env_out[tn] = env[tn]
+                saved = getattr(self, "break_cont", None)
+                self.break_cont = outer_break
+                try:
+                    return self.block(rest, env_out, cont, ind_k)
+                finally:
+                    self.break_cont = saved
+
+            def unroll(k, env_k, ind_k):
+                if k == len(items):
+                    return after(env_k, ind_k)
+                env_b = self.bind_target(s.target, items[k], env_k)
+                saved = getattr(self, "break_cont", None)
+                self.break_cont = after
+                try:
+                    return self.block(list(s.body), env_b, lambda e2, i2: unroll(k + 1, e2, i2), ind_k)
+                finally:
+                    self.break_cont = saved
+            outer_break = getattr(self, "break_cont", None)
+            return unroll(0, env, ind)
         it, tit = self.expr(s.iter, env) if not isinstance(s.iter, ast.Call) else self.call(s.iter, env)
         if not tit.startswith("List:"):
             raise NotTranslatable("loop over a non-list")
@@ -793,8 +1090,11 @@ class Fn:
                     + nxt(env, ind + 1) + ")")
         # general loop: structurally recursive auxiliary definition over the list; loop-carried variables =
         # the variables assigned in the body that exist before the loop
-        if not isinstance(s.target, ast.Name):
-            raise NotTranslatable("general loop with a tuple target")
+        tuple_names = None
+        if isinstance(s.target, ast.Tuple) and all(isinstance(x, ast.Name) for x in s.target.elts):
+            tuple_names = [x.id for x in s.target.elts]
+        elif not isinstance(s.target, ast.Name):
+            raise NotTranslatable("general loop target")
         assigned = []
         for n in ast.walk(ast.Module(body=s.body, type_ignores=[])):
             if isinstance(n, (ast.Assign, ast.AugAssign, ast.AnnAssign)):
@@ -809,7 +1109,7 @@ class Fn:
         psig = " ".join(f"({p} : {ty})" for p, ty in params)
         pnames = " ".join(p for p, _ in params)
         carried = [(self.lean_name(v), env[v][1]) for v in assigned]
-        x = s.target.id
+        x = s.target.id if tuple_names is None else "it"
 
         lean_ty = self.lean_ty
         env_nil = dict(env)
@@ -817,7 +1117,14 @@ class Fn:
             env_nil[v] = (ln, ty)
         nil_case = self.block(rest, env_nil, cont, 2)
         env_c = dict(env_nil)
-        env_c[x] = (x, elt)
+        if tuple_names is None:
+            env_c[x] = (x, elt)
+        else:
+            tys = split_top(elt[6:]) if elt.startswith("Tuple:") else []
+            if len(tys) != len(tuple_names):
+                raise NotTranslatable("tuple target does not fit the element type")
+            for i, (n, ty) in enumerate(zip(tuple_names, tys)):
+                env_c[n] = (x + ".2" * i + (".1" if i < len(tys) - 1 else ""), ty)
 
         def again(env3, ind3):
             return "  " * ind3 + f"{aux} {pnames} xs " + " ".join(par(env3[v][0]) for v in assigned)
@@ -829,8 +1136,8 @@ class Fn:
         cs = " ".join(f"({n} : {lean_ty(t)})" for n, t in carried)
         self.aux.append(
             f"def {aux} {psig} : List {par(lean_ty(elt))} → " + "".join(f"{par(lean_ty(t))} → " for _, t in carried) + f"{lean_ty(self.t['ret'])}\n"
-            f"  | [], " + ", ".join(n for n, _ in carried) + " =>\n" + nil_case + "\n"
-            f"  | {x} :: xs, " + ", ".join(n for n, _ in carried) + " =>\n" + cons_case + "\n")
+            f"  | []" + "".join(", " + n for n, _ in carried) + " =>\n" + nil_case + "\n"
+            f"  | {x} :: xs" + "".join(", " + n for n, _ in carried) + " =>\n" + cons_case + "\n")
         return pad + f"{aux} {pnames} {par(it)} " + " ".join(par(env[v][0]) for v in assigned)
 
     def translate(self):
@@ -875,6 +1182,11 @@ def _block(self, stmts, env, cont, ind):
         if lc is None:
             raise NotTranslatable("continue outside a loop")
         return lc(env, ind)
+    if stmts and isinstance(stmts[0], ast.Break):
+        bc = getattr(self, "break_cont", None)
+        if bc is None:
+            raise NotTranslatable("break outside an unrolled loop")
+        return bc(env, ind)
     return _orig_block(self, stmts, env, cont, ind)
 
 
